@@ -98,6 +98,10 @@ type LockState struct {
 	Fn        *ssa.Function
 	in        map[*ssa.BasicBlock][]string
 	Conflicts []string // unbalanced releases, state explosion
+	// EntryHeld lists locks the function releases without ever acquiring
+	// them: they are taken to be held by the caller on entry.
+	EntryHeld []Held
+	unheld    []Held
 	// DeferredCalls lists deferred non-lock calls with the lock state they
 	// run under (at function exit, after later-registered defers ran).
 	DeferredCalls []DeferredCall
@@ -167,6 +171,39 @@ const maxStatesPerBlock = 12
 // AnalyzeLocks runs the forward lock-state dataflow over fn. Closures and
 // goroutines start with the empty state.
 func AnalyzeLocks(fn *ssa.Function) *LockState {
+	ls := analyzeLocks(fn, nil)
+	if len(ls.unheld) == 0 {
+		return ls
+	}
+	// A function that only releases a lock it never acquires finishes a
+	// critical section its caller (or another goroutine) opened: the lock is
+	// held on entry. Anything else stays a conflict.
+	acquired := map[string]bool{}
+	AllInstrs(fn, func(_ Node, in ssa.Instruction) {
+		if cc := CallOf(in); cc != nil {
+			if op, ok := ClassifyLockOp(cc); ok && op.Acquire {
+				acquired[op.Lock] = true
+			}
+		}
+	})
+	var entry []Held
+	seen := map[string]bool{}
+	for _, h := range ls.unheld {
+		if acquired[h.Lock] || strings.HasPrefix(h.Lock, "local:") {
+			return ls
+		}
+		k := fmt.Sprintf("%s/%v", h.Lock, h.Read)
+		if !seen[k] {
+			seen[k] = true
+			entry = append(entry, h)
+		}
+	}
+	ls2 := analyzeLocks(fn, entry)
+	ls2.EntryHeld = entry
+	return ls2
+}
+
+func analyzeLocks(fn *ssa.Function, entry []Held) *LockState {
 	ls := &LockState{Fn: fn, in: map[*ssa.BasicBlock][]string{}}
 	if len(fn.Blocks) == 0 {
 		return ls
@@ -184,7 +221,11 @@ func AnalyzeLocks(fn *ssa.Function) *LockState {
 		}
 		return false
 	}
-	k0 := lstate{}.key()
+	st0 := lstate{}
+	for _, h := range entry {
+		st0.acquire(LockOp{Lock: h.Lock, Field: h.Field, Read: h.Read})
+	}
+	k0 := st0.key()
 	ls.in[fn.Blocks[0]] = []string{k0}
 	work := []item{{fn.Blocks[0], k0}}
 	reported := map[string]bool{}
@@ -255,6 +296,9 @@ func (ls *LockState) step(st *lstate, in ssa.Instruction, deferIdx *[]*ssa.Defer
 				st.acquire(op)
 			} else if !st.release(op.Lock, op.Read) {
 				conflict("release of " + op.Lock + " that is not held on some path")
+				if record {
+					ls.unheld = append(ls.unheld, Held{Lock: op.Lock, Field: op.Field, Read: op.Read})
+				}
 			}
 		}
 	case *ssa.Defer:
@@ -294,6 +338,13 @@ func (ls *LockState) step(st *lstate, in ssa.Instruction, deferIdx *[]*ssa.Defer
 				lock := f[1]
 				if !st.release(lock, f[2] == "r") {
 					conflict("deferred release of " + lock + " that is not held at exit on some path")
+					if record {
+						fld := lock
+						if i := strings.IndexAny(fld, "@"); i >= 0 {
+							fld = fld[:i]
+						}
+						ls.unheld = append(ls.unheld, Held{Lock: lock, Field: strings.TrimPrefix(fld, "ptr:"), Read: f[2] == "r"})
+					}
 				}
 			} else if record {
 				var idx int
